@@ -1,5 +1,5 @@
 """C17 - burn-in / thinning schedule and per-chain streams (Sampling.tla, TraceSampling.tla)."""
-import hashlib, json, random
+import hashlib, json, os, random
 import numpy as np
 
 from batchie import sampling
@@ -49,6 +49,10 @@ class CountMCMC(_Base, MCMCModel):
     def get_model_state(self):
         self.log.append({"ev": "get_state", "count": self.count})
         return CountTheta(self.count)
+
+
+class AnotherCountMCMC(CountMCMC):
+    """a second model class: the generator handed over depends on (seed, n_chains, chain_index) only, not on what is being sampled"""
 
 
 class CountVI(_Base, VIModel):
@@ -118,8 +122,8 @@ def _streams(rnd, ntriples, nwin):
         for idx in range(nch):
             triples.append((seed, nch, idx))
     triples = triples + rnd.sample(triples, min(len(triples), 6))     # repeats of identical triples, later in the process
-    for seed, nch, idx in triples:
-        m = CountMCMC()
+    for j, (seed, nch, idx) in enumerate(triples):
+        m = CountMCMC() if j % 2 == 0 else AnotherCountMCMC()
         st, r = outcome(sampling.sample, m, ThetaHolder(n_thetas=1), seed, n_chains=nch, chain_index=idx, n_burnin=0, thin=1)
         if st != "ok" or m.rng is None:
             return {"what": "streams", "raised": str(r)}
@@ -141,6 +145,47 @@ def _streams(rnd, ntriples, nwin):
     for o in out:
         del o["_cyc"], o["_state"]
     return {"what": "streams", "kind": "mcmc", "b": 0, "t": 1, "n": 1, "events": [], "streams": out, "near": near}
+
+
+CHILD = r"""
+import sys, json, hashlib
+import numpy as np
+sys.path.insert(0, %r)
+from harness.drivers import c17
+from batchie import sampling
+from batchie.core import ThetaHolder
+out = []
+for seed, nch, idx in json.loads(sys.argv[1]):
+    m = c17.CountMCMC()
+    sampling.sample(m, ThetaHolder(n_thetas=1), seed, n_chains=nch, chain_index=idx, n_burnin=0, thin=1)
+    st = json.dumps(m.rng.bit_generator.state, sort_keys=True, default=str)
+    out.append(hashlib.sha1(st.encode()).hexdigest())
+print(json.dumps(out))
+"""
+
+
+def _streams_other_process(rnd):
+    """the same triples in this interpreter and in a fresh one with another PYTHONHASHSEED: same generator state"""
+    import subprocess, sys
+    triples = [(rnd.choice([0, 1, 12345]), nch, idx) for nch in (1, 3) for idx in range(nch)]
+    here = []
+    for seed, nch, idx in triples:
+        m = CountMCMC()
+        st, r = outcome(sampling.sample, m, ThetaHolder(n_thetas=1), seed, n_chains=nch, chain_index=idx, n_burnin=0, thin=1)
+        if st != "ok" or m.rng is None:
+            return {"what": "streams", "raised": str(r)}
+        here.append(hashlib.sha1(json.dumps(m.rng.bit_generator.state, sort_keys=True, default=str).encode()).hexdigest())
+    env = dict(os.environ, PYTHONHASHSEED=str(rnd.randint(1, 10 ** 6)))
+    p = subprocess.run([sys.executable, "-c", CHILD % "/verif", json.dumps(triples)], env=env, stdout=subprocess.PIPE, stderr=subprocess.PIPE, text=True, timeout=300)
+    if p.returncode != 0:
+        return {"what": "streams", "raised": "child interpreter failed: " + p.stderr[-300:]}
+    there = json.loads(p.stdout.strip().splitlines()[-1])
+    intern = Interner()
+    out = []
+    for (seed, nch, idx), a, b in zip(triples, here, there):
+        for tok in (a, b):
+            out.append({"seed": seed % 100000, "nchains": nch, "idx": idx, "tok": intern(tok), "ref": intern(tok), "win": [], "cycle": 0})
+    return {"what": "streams", "kind": "mcmc", "b": 0, "t": 1, "n": 1, "events": [], "streams": out, "near": []}
 
 
 def run(ctx):
@@ -178,6 +223,10 @@ def run(ctx):
         traces.append(tr)
     tr, _ = _run("mcmc", 0, 1, 3)          # no burn-in at all
     traces.append(tr)
+    for b in (1001, 3333) if ctx.quick else (1000, 1001, 1499, 3333, 10007):       # long burn-ins (production uses thousands of steps)
+        tr, _ = _run("mcmc", b, rnd.randint(1, 3), 2)
+        traces.append(tr)
+    traces.append(_streams_other_process(rnd))
     for _ in range(3 if ctx.quick else 20):
         traces.append(_streams(rnd, 5 if ctx.quick else 8, 256 if ctx.quick else 1024))
     _decide(ctx, traces)
